@@ -58,8 +58,17 @@ def run_group(cmd, timeout, capture="pipe", d=None):
         return -999, b"", b"TIMEOUT"
 
 
+class Inconclusive(Exception):
+    """the shuffle parse ran out of its budget: too many hosts with indistinguishable records (-N, bursts of
+    empty lines): neither accepted nor rejected"""
+
+
+SHUFFLE_BUDGET = 400000
+
+
 def parse_shuffle(out, seqs):
-    """is `out` an interleaving of the record sequences `seqs` with every record contiguous?"""
+    """is `out` an interleaving of the record sequences `seqs` with every record contiguous?
+    (DFS over the vectors of per-host positions, memoised; bounded: raises Inconclusive beyond SHUFFLE_BUDGET states)"""
     n = len(seqs)
     start = tuple([0] * n)
     failed = set()
@@ -71,6 +80,8 @@ def parse_shuffle(out, seqs):
         idx, pos = stack.pop()
         if idx in failed:
             continue
+        if len(failed) > SHUFFLE_BUDGET:
+            raise Inconclusive()
         if pos == len(out) and all(idx[h] == len(seqs[h]) for h in range(n)):
             return True
         failed.add(idx)
@@ -211,6 +222,57 @@ def gen_spec(ctx, r):
             "capture": rng.choice(["pipe", "file"])}
 
 
+def pinned_specs(quick):
+    """real runs EVERY check executes first, whatever the seed (no randomness): the classes only a real pdsh run can
+    show -- dsh()'s own "targets span different domains" loop (target lists in which differing domains are
+    separated by a name without a dot, adjacent, absent), a stream that ends long before the other one (stdout
+    closed while stderr keeps arriving, and the reverse), a transport child whose exec fails right after another
+    target's unterminated fragment (stdout to a pipe and to a file)"""
+    def host(o, e, plan):
+        return {"out": hexs(o), "err": hexs(e), "plan": plan}
+
+    def simple(name):
+        n = name.encode()
+        o, e = n + b" out line\n" + n + b" out tail", n + b" err line\n"
+        return host(o, e, ["o %d 0" % len(o), "e %d 0" % len(e)])
+    specs = []
+    for targets, K in ((["a.x", "b", "a.y"], False), (["n1.east.example", "n2", "n1.west.example"], False),
+                       (["a.x", "b", "c.x"], False), (["b", "a.x", "c", "d.y", "e"], False), (["a.x", "b.y"], False),
+                       (["a.x", "b", "c.x"], True), (["plain", "other"], False),
+                       # one domain a proper prefix / suffix of the other; digit-first names; -N
+                       (["a.dom", "b.dom.sub"], False), (["a.sub.dom", "b.dom"], False), (["10.0.0.1", "h.x", "10.0.0.2"], False),
+                       (["a.x", "b", "a.y"], None)):
+        specs.append({"kind": "real-run", "targets": targets, "labels": K is not None, "K": bool(K), "fanout": 32, "write_style": "pinned",
+                      "hosts": {t: simple(t) for t in targets}, "timeout": 0, "capture": "pipe", "pinned": "domains"})
+    # one stream ends long before the other
+    for first, fd in (("o", 1), ("e", 2)):
+        hosts = {}
+        for t in ("h1", "h10"):
+            n = t.encode()
+            o = n + b" out 1\n" + n + b" out 2\n" + n + b" out tail"
+            e = n + b" err 1\n" + n + b" err 2\n" + n + b" err 3\n" + n + b" err tail"
+            early, late = (o, e) if first == "o" else (e, o)
+            lk = "e" if first == "o" else "o"
+            cut = len(late) // 3
+            plan = ["%s %d 0" % (first, len(early)), "C %d 60000" % fd, "%s %d 60000" % (lk, cut),
+                    "%s %d 60000" % (lk, cut), "%s %d 0" % (lk, len(late) - 2 * cut)]
+            hosts[t] = host(o, e, plan)
+        specs.append({"kind": "real-run", "targets": ["h1", "h10"], "labels": True, "K": False, "fanout": 2,
+                      "write_style": "pinned", "hosts": hosts, "timeout": 0, "capture": "pipe",
+                      "pinned": "stream-%s-ends-first" % first})
+    # exec fails for the targets started while the command is gone, right after an unterminated fragment
+    for capture in ("pipe", "file"):
+        targets = ["n1", "n2", "n3", "n4"]
+        hosts = {}
+        for t in targets:
+            n = t.encode()
+            o = n + b" fragment without newline"
+            hosts[t] = host(o, b"", ["o %d 0" % len(o)] + (["U 150000"] if t == "n1" else []))
+        specs.append({"kind": "real-run", "targets": targets, "labels": True, "K": False, "fanout": 1,
+                      "write_style": "pinned", "hosts": hosts, "timeout": 0, "capture": capture, "pinned": "exec-fails"})
+    return specs
+
+
 def exec_spec(ctx, prop, spec, pdsh, writer, d, real):
     """run pdsh on the spec and judge its stdout/stderr; returns (signature or None, what, case)"""
     from vlib.common import unhex
@@ -286,31 +348,48 @@ def exec_spec(ctx, prop, spec, pdsh, writer, d, real):
             re.compile(b"pdsh@[^\n]*\n")
         se = pat.sub(b"", se)
     for which, data, sel in (("stdout", so, 0), ("stderr", se, 1)):
-        whole, split, loose = [], [], []
-        for i, h in enumerate(targets):
-            prefix = (relay.py_label(c, i) + b": ") if labels else b""
-            pl = b"" if h in notrun else payloads[h][sel]
-            whole.append(records(prefix, pl))
-            split.append(records(prefix, pl, split_tail=True))
-            loose.append(records(prefix, pl, split_tail=True, split_all=True))
-        if parse_shuffle(data, whole):
-            continue
-        if parse_shuffle(data, split):
-            real["tail_split_raced"] += 1
-            if prop == "C06":
-                return ("tail-record-split",
-                        "real run: %s parses as whole records only if a host's tail label and tail data are "
-                        "taken as separate records (another host's record landed between them)" % which, case)
-            continue
-        # neither: bytes lost/duplicated/reordered, a wrong label, or a record torn apart.  C05 is about the
-        # bytes only: it still holds if the output is an interleaving once every label may stand apart
-        # from the line it precedes (atomicity of records is C06's business)
-        if prop == "C05" and parse_shuffle(data, loose):
-            real["records_torn_but_bytes_complete"] = real.get("records_torn_but_bytes_complete", 0) + 1
-            continue
-        return ("real-bytes-differ" if prop == "C05" else "real-record-torn",
-                "real run: pdsh's %s is not an interleaving of the hosts' labelled records" % which, case)
+      try:
+          whole, split, loose = [], [], []
+          for i, h in enumerate(targets):
+              prefix = (relay.py_label(c, i) + b": ") if labels else b""
+              pl = b"" if h in notrun else payloads[h][sel]
+              whole.append(records(prefix, pl))
+              split.append(records(prefix, pl, split_tail=True))
+              loose.append(records(prefix, pl, split_tail=True, split_all=True))
+          if parse_shuffle(data, whole):
+              continue
+          if parse_shuffle(data, split):
+              real["tail_split_raced"] += 1
+              if prop == "C06":
+                  return ("tail-record-split",
+                          "real run: %s parses as whole records only if a host's tail label and tail data are "
+                          "taken as separate records (another host's record landed between them)" % which, case)
+              continue
+          # neither: bytes lost/duplicated/reordered, a wrong label, or a record torn apart.  C05 is about the
+          # bytes only: it still holds if the output is an interleaving once every label may stand apart
+          # from the line it precedes (atomicity of records is C06's business)
+          if prop == "C05" and parse_shuffle(data, loose):
+              real["records_torn_but_bytes_complete"] = real.get("records_torn_but_bytes_complete", 0) + 1
+              continue
+          return ("real-bytes-differ" if prop == "C05" else "real-record-torn",
+                  "real run: pdsh's %s is not an interleaving of the hosts' labelled records" % which, case)
+      except Inconclusive:
+          # too ambiguous to attribute (many hosts, no labels, identical records): counted, not judged
+          real["inconclusive_parses"] = real.get("inconclusive_parses", 0) + 1
+          if total_len(payloads, targets, notrun, sel, labels, relay, c) != len(data):
+              return ("real-bytes-differ" if prop == "C05" else "real-record-torn",
+                      "real run: pdsh's %s has %d bytes, the hosts' labelled records add up to another number" %
+                      (which, len(data)), case)
     return (None, None, case)
+
+
+def total_len(payloads, targets, notrun, sel, labels, relay, c):
+    n = 0
+    for i, h in enumerate(targets):
+        prefix = (relay.py_label(c, i) + b": ") if labels else b""
+        pl = b"" if h in notrun else payloads[h][sel]
+        n += sum(len(r) for r in records(prefix, pl))
+    return n
 
 
 def real_tools(ctx):
@@ -352,10 +431,19 @@ def run_real(ctx, prop, cov, dist):
     beyond_domain_probe(ctx, pdsh, writer, dist)
     nruns = 24 if ctx.quick() else 220
     real = {"runs": 0, "hosts": 0, "bytes": 0, "tail_split_raced": 0}
-    for r in range(nruns):
-        spec = gen_spec(ctx, r)
-        sig, what, case = exec_spec(ctx, prop, spec, pdsh, writer, os.path.join(ctx.scratch, "real%d" % r), real)
+    pinned = pinned_specs(ctx.quick())
+    real["pinned_runs"] = len(pinned)
+    for r in range(-len(pinned), nruns):
+        spec = pinned[r + len(pinned)] if r < 0 else gen_spec(ctx, r)
+        sig, what, case = exec_spec(ctx, prop, spec, pdsh, writer, os.path.join(ctx.scratch, "real%d" % r if r >= 0 else "realpin%d" % -r), real)
         cov["evaluations"] += 1
+        if sig == "timeout":
+            # a timeout alone is re-tried once before it is reported (a loaded machine is not a hanging pdsh)
+            real["timeouts_retried"] = real.get("timeouts_retried", 0) + 1
+            sig, what, case = exec_spec(ctx, prop, spec, pdsh, writer,
+                                        os.path.join(ctx.scratch, "real-retry%d" % (r + len(pinned))), real)
+        if spec.get("pinned") == "exec-fails":
+            real["pinned_exec_failures"] = real.get("pinned_exec_failures", 0) + len(case.get("exec_failed", []))
         if sig:
             ctx.offender(sig, what, case)
             if sig in ("crash", "timeout"):
